@@ -109,8 +109,18 @@ def _build(d, maxdim):
     if d.pick(2):
         args.reverse()
     fn = d.choice(AGGS)
-    return {'kind': 'agg', 'fn': fn, 'grid': grid, 'args': args,
+    case = {'kind': 'agg', 'fn': fn, 'grid': grid, 'args': args,
             'shuffle': d.pick(7)}
+    if d.pick(3) == 0:
+        # ranges of ANOTHER sheet (qualified) mixed with unqualified ones of
+        # the formula's own sheet, in any order
+        h2, w2 = d.int(1, 4), d.int(1, 4)
+        case['grid2'] = _grid(d, h2, w2)
+        parts2 = _partition(d, 0, 0, h2 - 1, w2 - 1, 2)
+        for p2 in parts2:
+            args.insert(d.pick(len(args) + 1), ['r2', rng(*p2)])
+        case['shuffle'] = 0
+    return case
 
 
 def strategy(tier):
@@ -159,14 +169,14 @@ def cells_of(grid, ref):
     return out
 
 
-def fold(fn, grid, args):
+def fold(fn, grid, args, grid2=None):
     nums, nonempty = [], 0
     for kind, a in args:
         if kind == 'n':
             nums.append(a)
             nonempty += 1
         else:
-            for v in cells_of(grid, a):
+            for v in cells_of(grid2 if kind == 'r2' else grid, a):
                 if is_number(v):
                     nums.append(v)
                 if v is not None:
@@ -195,7 +205,8 @@ def _cells(grid, sheet='Sheet1', r0=0, c0=0):
 
 def _render(fn, args):
     return '=%s(%s)' % (fn, ','.join(
-        a if k == 'r' else repr(a) for k, a in args))
+        a if k == 'r' else ('Other!' + a) if k == 'r2' else repr(a)
+        for k, a in args))
 
 
 def _permute_grid(grid, k):
@@ -215,17 +226,22 @@ def judge(case):
         return _judge_sp(case, res)
     fn, grid, args = case['fn'], case['grid'], case['args']
     h, w = len(grid), len(grid[0])
-    exp = fold(fn, grid, args)
-    flat = [v for row in grid for v in row]
+    grid2 = case.get('grid2')
+    exp = fold(fn, grid, args, grid2)
+    flat = [v for row in grid for v in row] + (
+        [v for row in grid2 for v in row] if grid2 else [])
     nnum = sum(1 for v in flat if is_number(v))
     has_gap = any(v is None or isinstance(v, str) for v in flat)
     res.labels = (fn, 'args:%d' % min(len(args), 6),
-                  'gap' if has_gap else 'dense')
+                  'gap' if has_gap else 'dense') + (
+                      ('two-sheets',) if grid2 else ())
     if exp is None:
         res.labels += ('no-numbers-skipped',)
         return res
     res.nontrivial = ((h >= 2 and w >= 2) or has_gap) and nnum >= 2
     cells = _cells(grid)
+    if grid2:
+        cells.update(_cells(grid2, sheet='Other'))
     F = 'Sheet1!'
     cells[F + 'AA1'] = _render(fn, args)
     cells[F + 'AA2'] = _render(fn, list(reversed(args)))
@@ -234,6 +250,8 @@ def judge(case):
     cells[F + 'AA5'] = _render('MAX', args)
     cells[F + 'AA6'] = '=SUM(%s)' % rng(0, 0, h - 1, w - 1)
     cells[F + 'AA7'] = _render('SUM', [a for a in args if a[0] == 'r'])
+    if not any(a[0] == 'r' for a in args):
+        cells[F + 'AA7'] = cells[F + 'AA6']
     try:
         model = lib.compile_dict(cells)
     except Exception as err:  # noqa: BLE001
@@ -251,7 +269,8 @@ def judge(case):
             res.fail('exception:%s:%s:%s' % (fn, obs[1], cls), want, obs,
                      cells[F + 'AA1'])
         else:
-            res.fail('fold:%s:%s' % (fn, cls), want, obs, cells[F + 'AA1'])
+            res.fail('fold:%s:%s%s' % (fn, cls, ':two-sheets' if grid2
+                                       else ''), want, obs, cells[F + 'AA1'])
         return res
     # metamorphic relations on the library's own answers
     rev = lib.evaluate(model, F + 'AA2', ev)
